@@ -42,7 +42,8 @@ def generate(ctx):
                "compensate": comp, "frequency": fmax, "shape": list(shape), "online": rng.random() < 0.4,
                "module": rng.random() < 0.5, "seed": rng.randrange(1 << 31),
                "zeros": rng.choice(["some", "some", "all", "none"]), "ones": rng.random() < 0.6,
-               "reconfigure": rng.random() < 0.35, "layout": rng.choice(["row_major", "row_major", "transposed"])}
+               "reconfigure": rng.random() < 0.35, "layout": rng.choice(["row_major", "row_major", "transposed"]),
+               "in_dtype": rng.choice(["float32", "float32", "float64"])}
     yield from _saturated(rng, 400 if ctx.tier == "thorough" else 12)
     # silence at zero intensity is a statement about every draw of the generator: very many zero-intensity element-steps
     for i in range(320 if ctx.tier == "thorough" else 24):
@@ -79,6 +80,8 @@ def _inputs(desc):
         flat.fill_(1.0)
     elif desc["ones"] and flat.numel() > 1 and desc["zeros"] != "all":
         flat[1] = 1.0
+    if desc.get("in_dtype") == "float64":
+        x = x.double()
     if desc.get("layout") == "transposed" and x.ndim >= 2:
         # the same intensities stored column-major (what a transposed view or a channels-last image batch looks like)
         x = x.transpose(0, -1).contiguous().transpose(0, -1)
